@@ -192,6 +192,8 @@ class Interp:
             return None
         if k == "defarg":
             return self.ev(t["e"], st)
+        if k == "ctor" and len(t.get("a", [])) == 1 and t.get("fn") in ("std::fpos",):
+            return self.ev(t["a"][0], st)       # integer -> stream position conversion
         if k == "un":
             op = t["op"]
             if op in ("pre++", "post++", "pre--", "post--"):
